@@ -81,7 +81,11 @@ TRetCheck == /\ IsEv("retcheck") /\ calls[Ev.id].st = "ret"
 TEnd == /\ IsEv("end") /\ \A id \in Ids : calls[id].st # "none" => (calls[id].st = "ret" /\ Settled(id))
         /\ Keep(<<subs, removed, calls, deliv, tmo, usub>>)
 TInfo == IsEv("info") /\ Keep(<<subs, removed, calls, deliv, tmo, usub>>)
-TNext == TReset \/ TSub \/ TUnsubStart \/ TUnsubRet \/ TUnsubAll \/ TPubStart \/ TRecv \/ TClosed \/ TNone \/ TTimeout \/ TPubRet
+\* summaries of uncontrolled rounds (see the driver): simultaneous Unsub calls of different / the same channels - per channel
+\* exactly one nil return, every channel closed and empty after a later PubSync; simultaneous publishers racing for the last
+\* buffer slot of a stalled subscriber under a positive timeout - every call returns, deliveries + timeouts = calls
+TBurst == (IsEv("uburst") \/ IsEv("sburst")) /\ Ev.bad = 0 /\ Keep(<<subs, removed, calls, deliv, tmo, usub>>)
+TNext == TBurst \/ TReset \/ TSub \/ TUnsubStart \/ TUnsubRet \/ TUnsubAll \/ TPubStart \/ TRecv \/ TClosed \/ TNone \/ TTimeout \/ TPubRet
          \/ TRetCheck \/ TEnd \/ TInfo
 TSpec == TInit /\ [][TNext]_vars
 Track == TrackL(l)
